@@ -363,6 +363,7 @@ def check(F, rep, tier):
     rep.extra["panic_sites"] = {"total": len(sites), "auto": n_auto, "audited": n_aud, "derive_unreferenced": n_der}
     stdout_rules(F, rep, cg, root, rwa, reach)
     git_errors(F, rep, cg)
+    template_recursion(F, rep, cg, reach)
     # the audited unwraps of LocalSegment::try_new_str rest on "every resolved value is a sanitiser output" (C01 R01.2)
     core.borrow(F, rep, "c01", "C01", "R13.1", ("R01.2:unsanitised",), "values that reach LocalSegment::try_new_str(..).unwrap() are sanitiser outputs")
     return core.finish(rep, explanation=EXPL, assumptions=ASSUME, trusted=TRUST)
@@ -504,6 +505,36 @@ def stdout_rules(F, rep, cg, root, rwa, reach):
         for t in builders:
             if "std::io::stderr" not in (t[1].get("full") or ""):
                 rep.bad("R13.5", "log-writer-default", "a tracing subscriber is initialised without the stderr writer (default is stdout)", il.where())
+
+def template_recursion(F, rep, cg, reach):
+    """R13.7: text supplied by the user is compiled into a Tera instance under a constant name.  Tera has no recursion limit:
+    `{% include NAME %}`, `{% import NAME as m %}` or a macro calling itself recurse until the stack overflows, which aborts the
+    process (not a panic: no unwinding, status 134).  Necessary condition read from the code: a non-constant template text reaches
+    Tera::add_raw_template / render_str / one_off without a dominating rejection that depends on that text."""
+    rule = "R13.7"
+    n = 0
+    for p in sorted(reach):
+        f = F.fns.get(p)
+        if f is None: continue
+        for bi, t in f.calls():
+            c = mir.callee(t) or ""
+            if not (c.startswith("tera::Tera::") and c.rsplit("::", 1)[-1] in ("add_raw_template", "add_raw_templates", "render_str", "one_off")): continue
+            n += 1
+            text_op = t[2][2] if c.endswith("add_raw_template") and len(t[2]) > 2 else (t[2][1] if len(t[2]) > 1 else t[2][0])
+            os_ = mir.trace_op(f, text_op)
+            site = "%s bb%d line %s" % (f.where(), bi, f.blocks[bi]["line"])
+            if os_ and all(o.kind == "const" for o in os_):
+                rep.ok(rule, "%s of a constant template" % c.rsplit("::", 1)[-1], sample=site, nontrivial_key="tpl%s%d" % (p, bi)); continue
+            # a rejection that looks at the text before it is compiled (contains / is_match / find on the same text, guarding an Err return)
+            keys = {o.key() for o in os_}
+            inspected = False
+            for d, pol, dd in mir.guards_of(f, bi):
+                if d[0] == "call" and any(x in (d[1] or "") for x in ("::contains", "is_match", "::find", "::starts_with", "::matches")):
+                    if any(o2.key() in keys for a in d[2][2] for o2 in mir.trace_op(f, a)): inspected = True
+            owner = p.split("::{closure")[0].replace("crate::", "")
+            if inspected: rep.undecided(rule, "template-guard:" + owner, "the template text is inspected before it is compiled; whether that excludes every recursive construct is not evaluated", site)
+            else: rep.bad(rule, "unbounded-template-recursion:" + owner, "user-supplied template text is compiled by Tera (%s) under a name it can refer to, with no check on the text: a self-including / self-importing template or a recursive macro overflows the stack and aborts the process" % c.rsplit("::", 1)[-1], site)
+    rep.floor(rule, "Tera template registrations reachable from run()", n, 1)
 
 def git_errors(F, rep, cg):
     rule = "R13.6"
